@@ -5,7 +5,7 @@ CONSTANTS Names <- NamesMB Depth = 3 Vals <- ValsX Sep = 46 Design = "list" Base
   Routes <- RDocs Cfgs <- CfgTN SingleKinds <- SKAssign PrePaths <- PreDT
   LoadKinds <- LoadB TwoFiles = TRUE EnvCalls <- None ArgCalls <- None ClearLists <- None
   MsgSets <- None MsgGets <- None NodeBases <- BasesT FputSeps <- None
-  MaxOps = 2 MaxArr = 1 SinglesFirst = TRUE Observe = FALSE
+  MaxOps = 2 MaxArr = 1 SingleWhen = "first" QuoteSet <- AllQuotes Observe = FALSE
 CONSTRAINT Bound
 VIEW ViewF
 INVARIANTS Refines PrefixClosed
